@@ -444,7 +444,7 @@ pub fn leaf_equiv(a: &str, b: &str) -> bool {
         time::OffsetDateTime::parse(ta, &time::format_description::well_known::Rfc3339),
         time::OffsetDateTime::parse(tb, &time::format_description::well_known::Rfc3339),
     ) {
-        return x.unix_timestamp_nanos() / 1_000_000 == y.unix_timestamp_nanos() / 1_000_000;
+        return x.unix_timestamp_nanos().div_euclid(1_000_000) == y.unix_timestamp_nanos().div_euclid(1_000_000);
     }
     false
 }
